@@ -64,7 +64,7 @@ def split_path_aggregate(s):
     depth = 0; j = 0
     while j < len(s):
         c = s[j]
-        if s.startswith('{closure', j) or s.startswith('{async', j): j = s.index('}', j) + 1; continue
+        if s.startswith('{closure', j) or s.startswith('{async', j) or s.startswith('{coroutine', j): j = s.index('}', j) + 1; continue
         if c in '<[': depth += 1
         elif c in '>]' and not (c == '>' and s[j-1] == '-'): depth -= 1
         elif depth == 0 and (c == '(' or s.startswith(' { ', j) or s.startswith(' {}', j)): break
